@@ -40,3 +40,30 @@ PROPS = {
         "min_reach": {"any": ["adopted-and-mutated:get_subgraph", "adopted-and-mutated:reverse", "adopted-and-mutated:set_all_edge_weights", "adopted-and-mutated:to_single_edges", "guard:reverse-on-undirected", "guard:to_single_edges-on-single", "reach:to_single_edges-collapsed-a-group"]},
     },
 }
+
+PROPS.update({
+    "C04": {
+        "level": "exploration",
+        "rule": "seeded graphs: 8 kinds x 14 families (G(n,p) at 3 densities, path, cycle, star, complete, grid, nested SCCs, many components, bipartite, barbell, tree, ladder) x weight classes {unweighted, exact k/4, exact wide, generic doubles, zero-containing}, optional self-loops / parallel edges, shuffled insertion order and names; n<=9 (every source, full path-set comparison) and every 8th case n in 21..60 (parallel branch; path counts). single_source / multi_source / all_pairs with (first_only, with_paths) in {(F,T),(T,T),(F,F)} are compared with exhaustive-relaxation distances and the enumerated set of all shortest paths computed from get_all_nodes()/get_all_edges() only. Non-trivial = graph has >=2 nodes and >=1 edge; distinct = distinct (kind, names, edge list) hashes.",
+        "assumptions": COMMON + ["generic (non-dyadic) weights: distances compared at 1e-9 relative, path sets only on graphs certified free of near-ties (gap > 1e-6)", "paths are node sequences: parallel edges do not multiply paths"],
+        "min_reach": {"any": ["reach:target-with-several-shortest-paths", "reach:parallel-edges", "reach:self-loops", "reach:unreachable-pairs", "reach:n>20"]},
+    },
+    "C05": {
+        "level": "exploration",
+        "rule": "seeded graphs as for C04 (n in 0..3, 3..12 and every 10th case 21..45) x {hop counts, positive weights} x {raw, normalized}; betweenness_centrality is compared (1e-9 relative) with the pair-dependency definition evaluated on all-pairs distances and path counts computed from get_all_edges() only. Non-trivial = n>=3 and >=1 edge; distinct = distinct graph hashes.",
+        "assumptions": COMMON + ["generic-weight graphs are only used when certified tie-free", "shortest paths are counted as node sequences (parallel edges do not multiply paths)"],
+        "min_reach": {"any": ["reach:graph-with-tied-shortest-paths", "reach:n<=2", "reach:parallel-edges", "reach:self-loops", "reach:n>20"]},
+    },
+    "C06": {
+        "level": "exploration",
+        "rule": "seeded graphs as for C05 x {hop counts, positive weights} x {wf_improved on, off}; closeness_centrality is compared (1e-9 relative) with (r-1)/sum of incoming distances computed from get_all_edges() only. Non-trivial = n>=2 and >=1 edge; distinct = distinct graph hashes.",
+        "assumptions": COMMON,
+        "min_reach": {"any": ["reach:directed-asymmetric-reachability", "reach:parallel-edges", "reach:self-loops", "reach:n>20"]},
+    },
+    "C08": {
+        "level": "exploration",
+        "rule": "seeded graphs (8 kinds, 14 families, n in 1..8, unweighted / exact / generic incl. decimal weights such as 0.2, 0.7) x every source x target in {None, each node} x cutoff in {None, every distinct distance, midpoints, beyond the maximum} x first_only x with_paths: each optioned single_source answer is compared with the unrestricted all-paths answer of the implementation itself; all_pairs and multi_source(all nodes) are compared with per-node single_source; undirected symmetry, triangle inequality and get_all_shortest_paths_involving are checked on the same answers. Non-trivial = n>=3 and >=1 edge; distinct = distinct graph hashes.",
+        "assumptions": COMMON + ["metamorphic: the implementation is compared with itself (absolute correctness of the unrestricted answer is C04's business)"],
+        "min_reach": {"any": ["reach:involving-nonempty"]},
+    },
+})
